@@ -210,7 +210,9 @@ Print Assumptions C16_width_bound_needed.
    min(#lines, Max.Height) rows, at most Max.Width columns, and in row i the cell at column c is the
    character of line i that starts at column c (the last one if a zero-width character shares the
    column), else the blank cell — surface_ok_b, the predicate the harness evaluates on the
-   surfaces returned by the real Draw. *)
+   surfaces returned by the real Draw.  (surface_ok_b alone accepts a surface that is too narrow:
+   the size clause and "nothing is dropped" are C16_text_draws_lines_sized / _full below; the
+   harness evaluates surface_full_b.) *)
 Theorem C16_text_draws_lines :
   forall (restyle : cell -> cell) (fill : Z) (lines : list (list cell)) (MaxW MaxH : Z),
     0 <= MaxW < 65536 -> 0 <= MaxH < 65536 -> zlen lines < 65536 ->
@@ -244,6 +246,66 @@ Theorem C16_text_draws_lines_zero_width_refuted :
 Proof. exact draw_zero_width_refuted. Qed.
 Print Assumptions C16_text_draws_lines_zero_width_refuted.
 
+(* ---------------- text_draws_lines: the size of the surface, nothing is dropped ---------------- *)
+(* surface_sized_b = surface_ok_b and the width clause: the surface is exactly as wide as the widest
+   of the lines it shows (the first H ones; a line below Max.Height is not counted), limited to
+   Max.Width.  Holds of the model for every input, zero-width characters included: it is the part of
+   the clause evaluated on an observation under the guard of zero-width-overdraw. *)
+Theorem C16_text_draws_lines_sized :
+  forall (restyle : cell -> cell) (fill : Z) (lines : list (list cell)) (MaxW MaxH : Z),
+    0 <= MaxW < 65536 -> 0 <= MaxH < 65536 -> zlen lines < 65536 ->
+    Forall (fun l => wok l /\ sumw l < 65536) lines ->
+    exists obs, draw_softwrap restyle fill lines MaxW MaxH = Some obs /\
+                surface_sized_b restyle fill lines MaxW MaxH obs = true.
+Proof. exact draw_softwrap_sized. Qed.
+Print Assumptions C16_text_draws_lines_sized.
+
+(* findContainerSize in closed form, from any start (W0, H0): the height grows by the measured
+   lines and the width is the maximum of W0 and the widths of exactly those lines, cut at Max.Width *)
+Theorem C16_container_size_closed_form :
+  forall MaxW MaxH lines W0 H0 W H,
+    0 <= MaxW -> Forall (fun l => wok l /\ sumw l < 65536) lines ->
+    0 <= H0 -> H0 + zlen lines < 65536 -> 0 <= W0 <= MaxW ->
+    container_size lines MaxW MaxH W0 H0 = (W, H) ->
+    H0 <= H /\ W = Z.min MaxW (Z.max W0 (max_width (firstn (Z.to_nat (H - H0)) lines))).
+Proof. intros MaxW MaxH lines W0 H0 W H HM. exact (container_size_width MaxW MaxH HM lines W0 H0 W H). Qed.
+Print Assumptions C16_container_size_closed_form.
+
+(* The whole clause as the harness evaluates it on the surfaces returned by the real Draw
+   (surface_full_b = surface_exact_b, the width clause, and drawn_b: every character of a shown line
+   that starts left of Max.Width lies inside the surface, in the cell at its column): holds of the
+   model outside the guard of zero-width-overdraw. *)
+Theorem C16_text_draws_lines_full :
+  forall (restyle : cell -> cell) (fill : Z) (lines : list (list cell)) (MaxW MaxH : Z),
+    0 <= MaxW < 65536 -> 0 <= MaxH < 65536 -> zlen lines < 65536 ->
+    Forall (fun l => wok l /\ sumw l < 65536) lines ->
+    has_zero_width lines = false ->
+    exists obs, draw_softwrap restyle fill lines MaxW MaxH = Some obs /\
+                surface_full_b restyle fill lines MaxW MaxH obs = true.
+Proof. exact draw_softwrap_full. Qed.
+Print Assumptions C16_text_draws_lines_full.
+
+(* On ANY observation (no model): exact cells up to the surface's width plus the right width imply
+   that nothing is dropped (the drawn_b part of surface_full_b) ... *)
+Theorem C16_right_width_drops_nothing :
+  forall (restyle : cell -> cell) (fill : Z) (lines : list (list cell)) (MaxW MaxH : Z) obs,
+    Forall (fun l => wok l) lines -> has_zero_width lines = false ->
+    surface_exact_b restyle fill lines MaxW MaxH obs = true -> surface_width_b lines MaxW obs = true ->
+    surface_full_b restyle fill lines MaxW MaxH obs = true.
+Proof. exact surface_full_of_exact_width. Qed.
+Print Assumptions C16_right_width_drops_nothing.
+
+(* ... and the width clause cannot be left out: for the lines "a" / two wide characters, a surface
+   one column wide passes surface_exact_b although the second wide character has no cell at all *)
+Theorem C16_width_clause_needed :
+  let lines := [[mkCell [97] 1 0]; [mkCell [28450] 2 0; mkCell [28450] 2 0]] in
+  let narrow := (1, 2, [mkCell [97] 1 0; mkCell [28450] 2 0]) in
+  has_zero_width lines = false /\
+  surface_exact_b (fun c => c) 0 lines 10 10 narrow = true /\
+  surface_full_b (fun c => c) 0 lines 10 10 narrow = false.
+Proof. exact draw_width_clause_needed. Qed.
+Print Assumptions C16_width_clause_needed.
+
 (* ---------------- non-vacuity ---------------- *)
 (* the hypotheses hold for uniseg's own tables of "x ab-cd" (break opportunities after "x " and
    "ab-") and of "foo\nbar" (mandatory break after the newline), at width 2 *)
@@ -264,6 +326,19 @@ Example C16_examples_computed :
   map (fun x => flat (fst x)) (fst (plain_scan (tbl_orc ex2_tbl) 2 ex2_input)) = [[102; 111]; [111]; [98; 97]; [114]] /\
   cuts_of 7 (fst (plain_scan (tbl_orc ex2_tbl) 2 ex2_input)) = [2; 4; 6; 7]%nat.
 Proof. exact ex_runs. Qed.
+
+(* the hypotheses of the Draw theorems hold for the lines "a" / wide wide at Max 10 x 10, and the
+   model's surface is 4 columns wide: the second line, with fewer graphemes than columns, sets the width *)
+Example C16_draw_wide_example :
+  let lines := [[mkCell [97] 1 0]; [mkCell [28450] 2 0; mkCell [28450] 2 0]] in
+  Forall (fun l => wok l /\ sumw l < 65536) lines /\ has_zero_width lines = false /\
+  draw_softwrap (fun c => c) 0 lines 10 10 =
+  Some (4, 2, [mkCell [97] 1 0; mkCell [] 0 0; mkCell [] 0 0; mkCell [] 0 0;
+               mkCell [28450] 2 0; mkCell [] 0 0; mkCell [28450] 2 0; mkCell [] 0 0]).
+Proof.
+  cbn zeta. split; [|split; reflexivity].
+  repeat constructor; cbn; lia.
+Qed.
 
 (* drawing the two lines "ab" and "c" into a 3 x 5 box gives a 2 x 2 surface with rows ab / c· *)
 Example C16_draw_example :
